@@ -196,6 +196,7 @@ Definition parse_state (ctx : State) (ls : list (list Z)) : option State :=
   fold_left (fun os l => match os with Some s => parse_line s l | None => None end) ls
     (Some (set_unbonding_time (unbonding_time ctx) (set_height (height ctx) (set_now (now ctx) init_state)))).
 
-(* an observed state placed in the block context (time, height, unbonding time) of [ctx] *)
+(* an observed state placed in the block context (time, height, unbonding time, the recorded
+   distribution withdrawals the operation will see) of [ctx] *)
 Definition with_ctx (ctx s : State) : State :=
-  set_unbonding_time (unbonding_time ctx) (set_height (height ctx) (set_now (now ctx) s)).
+  set_oracle (oracle ctx) (set_unbonding_time (unbonding_time ctx) (set_height (height ctx) (set_now (now ctx) s))).
